@@ -17,6 +17,7 @@ import Ctrmml.Proofs.LayoutTransfer
 import Ctrmml.Proofs.LayoutBlockLines2
 import Ctrmml.Proofs.LayoutCmd3
 import Ctrmml.Proofs.LayoutLines3
+import Ctrmml.Proofs.LayoutBlock3
 import Ctrmml.Proofs.IdsBound
 import Ctrmml.Spec.Layout
 namespace Ctrmml.C06
@@ -1168,6 +1169,73 @@ example : exMulti3.map LLine.text = [tx "AB o4 \\ c"] ∧ exSingle3.map LLine.te
 example : L2.W.LinesOk [0, 1] false exMulti3 ∧ L2.W.LinesOk [1] false exSingle3 ∧ [0, 1].Nodup ∧
     (∀ id ∈ [0, 1], L2.CmdsOk (trackOf id MmlState.init).strip (layoutCmds exMulti3)) ∧
     ¬ L2.LinesOk [0, 1] false exMulti3 ∧ ¬ L2.LinesOk [1] false exSingle3 := by
+  decide +kernel
+
+/-! ### round 5, fourth part: lines with conditional blocks and the bare echo
+
+`Proofs/LayoutBlock3` (namespace `L2.W`): the block files replayed over `L3.LCmdTail`.  These are the
+widest block statements: `LCovered2` commands, the bare `\` before blanks, a bar, `/`, `}` or the end of
+the line included, inside and outside alternatives (no loop break inside an alternative: D16). -/
+
+/-- `L2.BLinesOk` ⇒ `L2.W.BLinesOk` (no side condition) -/
+theorem C06_blinesOk_v2_to_v3 (ids : List Nat) (r : Bool) (ls : List BLine) (h : L2.BLinesOk ids r ls) : L2.W.BLinesOk ids r ls :=
+  L2.W.blinesOk_of_v2 ids ls r h
+
+/-- `C06_multitrack_blocks_run2_partial` over `L2.W.BLinesOk` (PARTIAL: `L2.CmdsOk`; `Clean` + one alternative per track = D16) -/
+theorem C06_multitrack_blocks_run3_partial (ids : List Nat) (ls : List BLine) (n : Nat) (s : MmlState) (r : Bool)
+    (hnd : ids.Nodup) (hne : ids ≠ []) (hlen : ids.length ≤ 65536) (hok : L2.W.BLinesOk ids r ls) (hready : r = true → Ready ids s)
+    (hcmds : ∀ j id, ids[j]? = some id → L2.CmdsOk (trackOf id s).strip (blayoutCmds j ls)) :
+    ∃ s', readLines n (ls.map BLine.text) s = .ok () s' ∧
+      (∀ j id, ids[j]? = some id → (trackOf id s').strip = L2.runCmds (trackOf id s).strip (blayoutCmds j ls)) ∧
+      (∀ b, b ∉ ids → s'.song.tracks.lookup b = s.song.tracks.lookup b) := by
+  obtain ⟨s', h1, h2⟩ := L2.W.readLines_blayout ids hnd hne hlen ls n s r hok hready hcmds
+  exact ⟨s', h1, h2.tracks, h2.others⟩
+
+/-- `C06_multitrack_eq_single_blocks2_partial` over `L2.W.BLinesOk` / `L2.W.LinesOk` (PARTIAL: `L2.CmdsOk`, `Clean`) -/
+theorem C06_multitrack_eq_single_blocks3_partial (ids : List Nat) (j a : Nat) (multi : List BLine) (single : List LLine) (n1 n2 : Nat) (s : MmlState)
+    (hj : ids[j]? = some a) (hnd : ids.Nodup) (hlen : ids.length ≤ 65536)
+    (hok1 : L2.W.BLinesOk ids false multi) (hok2 : L2.W.LinesOk [a] false single)
+    (hsame : layoutCmds single = blayoutCmds j multi)
+    (hc : ∀ j id, ids[j]? = some id → L2.CmdsOk (trackOf id s).strip (blayoutCmds j multi)) :
+    ∃ s1' s2', readLines n1 (multi.map BLine.text) s = .ok () s1' ∧ readLines n2 (single.map LLine.text) s = .ok () s2' ∧
+      (trackOf a s1').strip = (trackOf a s2').strip ∧ (trackOf a s1').getEvents = (trackOf a s2').getEvents := by
+  have hne : ids ≠ [] := by intro h; rw [h] at hj; simp at hj
+  obtain ⟨s1', h1, t1, _⟩ := C06_multitrack_blocks_run3_partial ids multi n1 s false hnd hne hlen hok1 (fun h => by cases h) hc
+  obtain ⟨s2', h2, t2, _⟩ := C06_layout_run3_partial [a] single n2 s false (by simp) (by simp) hok2 (fun h => by cases h)
+    (fun id hid => by
+      have : id = a := by simpa using hid
+      subst this; rw [hsame]; exact hc j id hj)
+  have hst : (trackOf a s1').strip = (trackOf a s2').strip := by rw [t1 j a hj, t2 a (by simp), hsame]
+  refine ⟨s1', s2', h1, h2, hst, ?_⟩
+  rw [← Track.strip_getEvents, hst, Track.strip_getEvents]
+
+/-- `AB o4 {c \ /d V+2} \ e`: a bare echo before ` /` inside an alternative and before ` e` behind the block -/
+def exBlocks3 : List BLine :=
+  [.hdr [.letter 0, .letter 1] 32
+    [.toks [.cmd (.octave { v := 4 }), .blank 32],
+     .block [[.cmd (.note 2 .none (.dflt 0)), .blank 32, .cmd (.echo (.dflt 0)), .blank 32],
+             [.cmd (.note 3 .none (.dflt 0)), .blank 32, .cmd (.simple .volFineUp (some { v := 2 }))]],
+     .toks [.blank 32, .cmd (.echo (.dflt 0)), .blank 32, .cmd (.note 4 .none (.dflt 0))]] []]
+
+/-- what `A` receives, as the single-track line `A o4 c\|\ e` -/
+def exBlocks3A : List LLine :=
+  [.hdr [.letter 0] 32 [.cmd (.octave { v := 4 }), .blank 32, .cmd (.note 2 .none (.dflt 0)), .cmd (.echo (.dflt 0)), .bar,
+     .cmd (.echo (.dflt 0)), .blank 32, .cmd (.note 4 .none (.dflt 0))] []]
+
+example : exBlocks3.map BLine.text = [tx "AB o4 {c \\ /d V+2} \\ e"] ∧ exBlocks3A.map LLine.text = [tx "A o4 c\\|\\ e"] ∧
+    layoutCmds exBlocks3A = blayoutCmds 0 exBlocks3 := by
+  refine ⟨by decide, by decide, rfl⟩
+
+/-- the hypotheses of the two theorems hold; those of the first part do not -/
+example : L2.W.BLinesOk [0, 1] false exBlocks3 ∧ L2.W.LinesOk [0] false exBlocks3A ∧ [0, 1].Nodup ∧
+    (∀ j, j < 2 → L2.CmdsOk (trackOf ([0, 1].getD j 0) MmlState.init).strip (blayoutCmds j exBlocks3)) ∧
+    ¬ L2.BLinesOk [0, 1] false exBlocks3 := by
+  decide +kernel
+
+/-- … and the model evaluated on the texts agrees -/
+example :
+    ((outcome ["AB o4 {c \\ /d V+2} \\ e"]).2.lookup 0) = ((outcome ["A o4 c\\|\\ e"]).2.lookup 0) ∧
+    (outcome ["AB o4 {c \\ /d V+2} \\ e"]).1 = none := by
   decide +kernel
 
 end Ctrmml.C06
